@@ -47,6 +47,8 @@ def obligations(tier, seed=0):
         add(bc=bc, exp=exp, dps=dps, sign=dps % 2, opts=dict(min_fixed=-big, max_fixed=big), fmt='fixed')
         add(bc=bc, exp=exp, dps=dps, sign=0, opts=dict(min_fixed=0, max_fixed=0))
         add(bc=bc, exp=exp, dps=dps, sign=1, opts=dict(show_zero_exponent=True), fmt='exp0')
+    # repr prints enough digits for the round trip (with nearest printing, here, and nearest parsing, C07)
+    obs.append((FS + 'lemma_repr_digits', {}))
     for kind in ('zero', 'inf', 'ninf', 'nan'):
         for dps in (0, 1, 15):
             obs.append((FS + 'to_str_special', dict(kind=kind, dps=dps)))
